@@ -87,6 +87,7 @@ def fitAt (o : Num α) (solver : Solver α) (yf : List α) (vf vander : List (Li
 structure Out (α : Type) where
   baseline : List (Option α)
   coefs : List (List α)
+deriving DecidableEq, Repr
 
 /-- `baseline[i] = vander[i].dot(coef); coefs[i] = coef` -/
 def write (s : Out α) (i : Nat) (r : List α × α) : Out α :=
@@ -136,6 +137,7 @@ structure LState (α β : Type) where
   w : List α
   coefs : List (List α)
   acc : β
+deriving DecidableEq, Repr
 
 /-- the rest of an iteration (`_fill_skips`, `relative_difference`, the `break`, thresholding or
 `_tukey_square`) as a parameter: from the accumulated state, the current `y`, `sqrt_w` and the kernel's
@@ -158,6 +160,10 @@ def loessLoop (conserve : Bool) (o : Num α) (solver : Solver α) (x : List α) 
     | none => { s with coefs := r.2.coefs, acc := u.1 }
     | some yw => loessLoop conserve o solver x vander n windows fits upd fuel (it + 1)
         { y := yw.1, w := yw.2, coefs := r.2.coefs, acc := u.1 } r.1
+
+/-- the `windows` array of `_determine_fits` as the kernels read it (`left = window[0]`, `right = window[1]`; the
+entries are non-negative, theorem `windows_size`) -/
+def natWindows (ws : List (Int × Int)) : List (Nat × Nat) := ws.map fun w => (w.1.toNat, w.2.toNat)
 
 /-! ### instances -/
 
